@@ -2,10 +2,15 @@
 
 use crate::sup::Prop;
 
+pub mod adtree;
+pub mod c01;
+pub mod c02;
 pub mod c07;
 
 pub fn make(id: &str) -> Option<Box<dyn Prop>> {
     match id {
+        "C01" => Some(Box::new(c01::C01::new())),
+        "C02" => Some(Box::new(c02::C02::new())),
         "C07" => Some(Box::new(c07::C07::new())),
         _ => None,
     }
